@@ -1024,8 +1024,9 @@ func (e *Engine) evalSpecCall(env *specEnv, n *ast.CallExpr) specVal {
 			return specVal{Value{Bool(err == nil)}, boolT}
 		}
 		return specVal{Value{App("validtemplate", SBool, a.v[0])}, boolT}
-	case "forallkey":
-		// forallkey(k, m, body): for every key k present in map m
+	case "forallkey", "forallkeyold", "forallkeyentry":
+		// forallkey(k, m, body): for every key k present in map m (now);
+		// forallkeyold: present when the function was entered; forallkeyentry: present when the loop was entered
 		id := n.Args[0].(*ast.Ident).Name
 		m := e.evalSpec(env, n.Args[1])
 		mt := m.t.Underlying().(*types.Map)
@@ -1043,7 +1044,20 @@ func (e *Engine) evalSpecCall(env *specEnv, n *ast.CallExpr) specVal {
 		sub.quant = true
 		body := e.evalSpec(&sub, n.Args[2])
 		addr := append([]*Term{m.v[0]}, kv...)
-		has := And(Ne(m.v[0], Zero), env.s.selectIn(env.heap, "mapdom("+e.typeKey(mt)+")", SBool, addr))
+		domHeap := env.heap
+		switch name {
+		case "forallkeyold":
+			if !env.hasOld {
+				e.specFail(n, "forallkeyold outside a postcondition / loop invariant")
+			}
+			domHeap = env.oldHeap
+		case "forallkeyentry":
+			if env.entryEnv == nil {
+				e.specFail(n, "forallkeyentry outside a loop invariant")
+			}
+			domHeap = env.entryEnv.heap
+		}
+		has := And(Ne(m.v[0], Zero), env.s.selectIn(domHeap, "mapdom("+e.typeKey(mt)+")", SBool, addr))
 		r := Implies(has, body.v[0])
 		for i := len(kv) - 1; i >= 0; i-- {
 			r = Forall(kv[i], r)
